@@ -1,1 +1,168 @@
-(* stub: to be written by group Questrade *)
+(* C18 - Questrade conversion keeps every trade and conserves USD cash.
+   Obligations of the property; proofs live in Proofs/QuestradeProps.v.
+   The statements are over the sheet as decoded by the `office` crate
+   (Model/Questrade.v) and exact arithmetic; the model under rust_decimal
+   rounding is tied to the code by the correspondence check. *)
+From Coq Require Import List NArith ZArith QArith Qcanon Bool Permutation.
+From ACB Require Import Base.Outcome Base.QcExtra Base.Arith Model.QText Model.FxTracker
+     Model.Questrade Spec.QtExport Proofs.QuestradeProps.
+Import ListNotations.
+Local Open Scope N_scope.
+
+(* One output row per BUY / SELL / DIS / LIQ activity whose cells can be read,
+   with that activity's dates, |quantity|, price, |commission|, currency and
+   account-derived affiliate (Spec.QtExport.trade_of_row), in input order;
+   every other activity (the documented ignored ones, DIV, FXT) and every
+   unreadable row yields no trade row - whatever errors occur elsewhere in
+   the sheet. *)
+Theorem C18_one_row_per_trade : forall rows txs errs,
+  convert exact rows = Ok (txs, errs) -> filter is_trade txs = expected_trades 2 rows.
+Proof. exact QuestradeProps.convert_trades. Qed.
+Check C18_one_row_per_trade : forall rows txs errs,
+  convert exact rows = Ok (txs, errs) -> filter is_trade txs = expected_trades 2 rows.
+Print Assumptions C18_one_row_per_trade.
+
+(* ... and through the options: the trade rows of the output are exactly the
+   expected trades that pass --account / --security / --no-fx, with
+   --usd-exchange-rate applied; in input order with --no-sort, a permutation
+   of it otherwise.  Holds for every filter predicate. *)
+Theorem C18_one_row_per_trade_options : forall o txs out,
+  post_process o txs = Some out ->
+  Permutation (filter is_trade out)
+              (map (apply_rate (o_rate o)) (filter (keeps o) (filter is_trade txs))) /\
+  (o_no_sort o = true ->
+   filter is_trade out = map (apply_rate (o_rate o)) (filter (keeps o) (filter is_trade txs))).
+Proof. exact QuestradeProps.run_trades. Qed.
+Check C18_one_row_per_trade_options : forall o txs out,
+  post_process o txs = Some out ->
+  Permutation (filter is_trade out)
+              (map (apply_rate (o_rate o)) (filter (keeps o) (filter is_trade txs))) /\
+  (o_no_sort o = true ->
+   filter is_trade out = map (apply_rate (o_rate o)) (filter (keeps o) (filter is_trade txs))).
+Print Assumptions C18_one_row_per_trade_options.
+
+(* For every export that converts without error: the signed sum of the
+   emitted USD.FX shares equals the net USD cash flow of the USD trades
+   (+-price * |quantity| - |commission|), the USD dividends and the USD legs
+   of the conversions. *)
+Theorem C18_cash_conserved : forall rows txs,
+  convert exact rows = Ok (txs, []) -> signed_sum (filter is_fx txs) = usd_flow rows.
+Proof. exact QuestradeProps.convert_cash. Qed.
+Check C18_cash_conserved : forall rows txs,
+  convert exact rows = Ok (txs, []) -> signed_sum (filter is_fx txs) = usd_flow rows.
+Print Assumptions C18_cash_conserved.
+
+(* sorting and --usd-exchange-rate leave that sum unchanged *)
+Theorem C18_cash_conserved_options : forall o txs out,
+  post_process o txs = Some out -> (forall t, In t txs -> keeps o t = true) ->
+  signed_sum (filter is_fx out) = signed_sum (filter is_fx txs).
+Proof. exact QuestradeProps.run_cash. Qed.
+Check C18_cash_conserved_options : forall o txs out,
+  post_process o txs = Some out -> (forall t, In t txs -> keeps o t = true) ->
+  signed_sum (filter is_fx out) = signed_sum (filter is_fx txs).
+Print Assumptions C18_cash_conserved_options.
+
+(* The rows that carry an exchange rate are exactly the conversions (FXT rows
+   paired in order of appearance): |USD leg| shares at |CAD leg / USD leg|. *)
+Theorem C18_implied_rate : forall rows txs,
+  convert exact rows = Ok (txs, []) -> rated txs = conversions None 2 rows.
+Proof. exact QuestradeProps.convert_rates. Qed.
+Check C18_implied_rate : forall rows txs,
+  convert exact rows = Ok (txs, []) -> rated txs = conversions None 2 rows.
+Print Assumptions C18_implied_rate.
+
+(* Layout: the conversion only sees the cell under each named header. *)
+Theorem C18_layout_insert : forall k h cells hdr rows,
+  Forall (fun r => length r = length hdr) rows -> (k <= length hdr)%nat ->
+  length cells = length rows -> unrelated_header h = true ->
+  forall A o, run A HeaderEnumerated o (insert_col k h cells (hdr :: rows))
+              = run A HeaderEnumerated o (hdr :: rows).
+Proof.
+  intros k h cells hdr rows H1 H2 H3 H4 A o. apply QuestradeProps.run_ext.
+  apply QuestradeProps.layout_insert; assumption.
+Qed.
+Check C18_layout_insert : forall k h cells hdr rows,
+  Forall (fun r => length r = length hdr) rows -> (k <= length hdr)%nat ->
+  length cells = length rows -> unrelated_header h = true ->
+  forall A o, run A HeaderEnumerated o (insert_col k h cells (hdr :: rows))
+              = run A HeaderEnumerated o (hdr :: rows).
+Print Assumptions C18_layout_insert.
+
+Theorem C18_layout_permute : forall p hdr rows,
+  NoDup p -> (forall i, (i < length hdr)%nat -> In i p) ->
+  Forall (fun r => length r = length hdr) rows ->
+  Forall (unique_name hdr) used_headers ->
+  forall A o, run A HeaderEnumerated o (permute_cols p (hdr :: rows))
+              = run A HeaderEnumerated o (hdr :: rows).
+Proof.
+  intros p hdr rows H1 H2 H3 H4 A o. apply QuestradeProps.run_ext.
+  apply QuestradeProps.layout_permute; assumption.
+Qed.
+Check C18_layout_permute : forall p hdr rows,
+  NoDup p -> (forall i, (i < length hdr)%nat -> In i p) ->
+  Forall (fun r => length r = length hdr) rows ->
+  Forall (unique_name hdr) used_headers ->
+  forall A o, run A HeaderEnumerated o (permute_cols p (hdr :: rows))
+              = run A HeaderEnumerated o (hdr :: rows).
+Print Assumptions C18_layout_permute.
+
+(* The code before the fix (non-string header cells dropped before the column
+   indices are assigned): a blank-headed column before Quantity makes the
+   converter read "junk" as the quantity and lose every row. *)
+Theorem C18_blank_header_refuted :
+  out_errs (run exact HeaderFiltered no_opts ex_sheet) = [] /\
+  length (out_rows (run exact HeaderFiltered no_opts ex_sheet)) = 5%nat /\
+  out_errs (run exact HeaderFiltered no_opts ex_sheet_blank)
+  = [(2, QErr.bad_number Col.qty); (3, QErr.bad_number Col.qty); (5, QErr.fxt_not_one_cad)]%N /\
+  length (out_rows (run exact HeaderFiltered no_opts ex_sheet_blank)) = 0%nat.
+Proof. exact QuestradeProps.blank_header_filtered_differs. Qed.
+Check C18_blank_header_refuted :
+  out_errs (run exact HeaderFiltered no_opts ex_sheet) = [] /\
+  length (out_rows (run exact HeaderFiltered no_opts ex_sheet)) = 5%nat /\
+  out_errs (run exact HeaderFiltered no_opts ex_sheet_blank)
+  = [(2, QErr.bad_number Col.qty); (3, QErr.bad_number Col.qty); (5, QErr.fxt_not_one_cad)]%N /\
+  length (out_rows (run exact HeaderFiltered no_opts ex_sheet_blank)) = 0%nat.
+Print Assumptions C18_blank_header_refuted.
+
+(* Every emitted row is accepted by acb (Spec.QtExport.acb_accepts mirrors
+   Tx::try_from) when the export converts without error and its amounts are
+   sane (traded quantity not zero, price not negative, trade currency CAD or
+   USD, USD dividends and conversion legs not zero); through the options when
+   a given --usd-exchange-rate is positive. *)
+Theorem C18_accepted_by_acb : forall rows txs,
+  convert exact rows = Ok (txs, []) -> forallb row_sane rows = true ->
+  Forall (fun t => acb_accepts t = true) txs.
+Proof. exact QuestradeProps.convert_accepted. Qed.
+Check C18_accepted_by_acb : forall rows txs,
+  convert exact rows = Ok (txs, []) -> forallb row_sane rows = true ->
+  Forall (fun t => acb_accepts t = true) txs.
+Print Assumptions C18_accepted_by_acb.
+
+Theorem C18_accepted_by_acb_options : forall o txs out,
+  post_process o txs = Some out ->
+  (forall x, o_rate o = Some x -> (0 < x)%Qc) ->
+  Forall (fun t => acb_accepts t = true) txs -> Forall (fun t => acb_accepts t = true) out.
+Proof. exact QuestradeProps.run_accepted. Qed.
+Check C18_accepted_by_acb_options : forall o txs out,
+  post_process o txs = Some out ->
+  (forall x, o_rate o = Some x -> (0 < x)%Qc) ->
+  Forall (fun t => acb_accepts t = true) txs -> Forall (fun t => acb_accepts t = true) out.
+Print Assumptions C18_accepted_by_acb_options.
+
+(* Non-vacuity: a 6-activity export (USD buy, CAD sell, a CAD/USD conversion,
+   a USD dividend, a deposit) converts without error, is sane, yields 2 trade
+   rows and 3 USD.FX rows moving 882.39 USD, one conversion of 1000 USD at
+   1.35; and the blank-headed column leaves the fixed code's output unchanged. *)
+Example C18_nonvacuous :
+  exists rows txs,
+    sheet_rows HeaderEnumerated ex_sheet = Some rows /\
+    convert exact rows = Ok (txs, []) /\ forallb row_sane rows = true /\
+    length (filter is_trade txs) = 2%nat /\ length (filter is_fx txs) = 3%nat /\
+    Qceqb (usd_flow rows) (Qcfrac 88239 100) = true /\
+    map (fun c => (this (fst (fst c)), this (snd (fst c)), snd c)) (rated txs)
+    = [(1000 # 1, 27 # 20, 5%N)]%Q.
+Proof. exact QuestradeProps.ex_sheet_facts. Qed.
+
+Example C18_layout_nonvacuous :
+  run exact HeaderEnumerated no_opts ex_sheet_blank = run exact HeaderEnumerated no_opts ex_sheet.
+Proof. exact QuestradeProps.blank_header_enumerated_same. Qed.
